@@ -51,7 +51,7 @@ def body_of(n, salt):
 
 
 def run_one(devs, budgets, blocks=1, direction="h2e", corrupt=None, all_bytes=False, chunk_menu=True, second=True, traced=True, paced=False,
-            tail=19, twin=False, retry=False):
+            tail=19, twin=False, retry=False, body_hex=None, sf=(3, 17)):
     box = {}
 
     def driver(s):
@@ -78,8 +78,9 @@ def run_one(devs, budgets, blocks=1, direction="h2e", corrupt=None, all_bytes=Fa
             link.corrupt = (first_dir, 2 * corrupt[0] + 1, corrupt[1], corrupt[2])
         sender, receiver, rname = (host, eq, "eq") if direction == "h2e" else (eq, host, "host")
         n = 244 * (blocks - 1) + tail  # tail = 244: the body is an exact multiple of the block size
-        body1 = body_of(n, 1)
-        hdr1 = secsgem.secsi.SecsIHeader(0x1001, 7, 3, 17, 0, direction == "e2h", True, True)
+        # body_hex: a body that is not a complete SECS-II item for a catalogued function (the line protocol carries any bytes)
+        body1 = body_of(n, 1) if body_hex is None else bytes.fromhex(body_hex)
+        hdr1 = secsgem.secsi.SecsIHeader(0x1001, 7, sf[0], sf[1], 0, direction == "e2h", True, True)
         results = {}
 
         def send1():
@@ -177,7 +178,7 @@ def run_one(devs, budgets, blocks=1, direction="h2e", corrupt=None, all_bytes=Fa
         return res
     mine = [m for m in got[rname] if m[0] == sys1]
     ok1 = results.get("first")
-    want1 = (sys1, 3, 17, 7, direction == "e2h", True, box["body1"])
+    want1 = (sys1, sf[0], sf[1], 7, direction == "e2h", True, box["body1"])
     if corrupt is None:
         if ok1 is not True:
             res["v"].append((f"C17|clean-message-reported-failed|{tag}", {"case": case, "results": results}))
@@ -328,6 +329,11 @@ def run(ctx):
                 for bi in range(blocks):
                     yield {"blocks": blocks, "direction": direction, "chunk_menu": False, "second": False, "corrupt": [bi, 15, 0x01], "retry": True}
                 # bodies that are exact multiples of the block size (244, 488, 732)
+                if blocks == 1:
+                    # bodies of catalogued functions that are not complete items: a list announcing more members than follow, a lone
+                    # format byte, a length byte without payload
+                    for bh in ("0102", "0103a90200", "01", "a9", "4103"):
+                        yield {"blocks": 1, "direction": direction, "chunk_menu": False, "second": True, "body_hex": bh, "sf": [1, 4]}
                 yield {"blocks": blocks, "direction": direction, "chunk_menu": False, "second": True, "tail": 244}
 
     n = ctx.run_cases(check_case, cases(), "c17-corruption", chunk=8)
